@@ -74,6 +74,7 @@ func (c *Ctx) execBlock(st *State, list []ast.Stmt) outcome {
 
 // exec runs one statement on st (mutated in place for straight-line statements).
 func (c *Ctx) exec(st *State, s ast.Stmt, label string) outcome {
+	c.curPos = s.Pos()
 	switch x := s.(type) {
 	case *ast.BlockStmt:
 		return c.execBlock(st, x.List)
@@ -726,6 +727,11 @@ func (c *Ctx) havocLoop(pre *State, li *loopInfo) *State {
 			case li.resliced[o] && !li.appended[o]:
 				ns.Ref = os.Ref
 				facts = append(facts, Eq(c.iadd(ns.Off, ns.Cap), c.iadd(os.Off, os.Cap)), c.ile(os.Off, ns.Off))
+			case li.appended[o] && !li.resliced[o]:
+				// only ever appended to: same object with the same window start and a length that did not shrink, or fresh
+				same := Eq(ns.Ref, os.Ref)
+				facts = append(facts, Or(And(same, Eq(ns.Off, os.Off), Eq(ns.Cap, os.Cap), c.ile(os.Len, ns.Len)),
+					app(SBool, "<", pre.alloc, ns.Ref)), c.ile(os.Len, ns.Len))
 			case li.appended[o] || li.resliced[o]:
 				// same object (then same end of capacity) or a fresh one
 				same := Eq(ns.Ref, os.Ref)
@@ -823,6 +829,14 @@ func (c *Ctx) rangeAxiomHeap(h Term, fam string) {
 }
 
 func (c *Ctx) loopSpec(ord int) *LoopSpec {
+	if c.inlineDepth > 0 && c.fc != nil && c.fr.key != "" {
+		if v, ok := c.fc.Opts[fmt.Sprintf("inline-loop:%s.%d", c.fr.key, ord)]; ok {
+			var k int
+			if _, err := fmt.Sscanf(v, "unroll %d", &k); err == nil {
+				return &LoopSpec{Unroll: k}
+			}
+		}
+	}
 	if c.fr.fc == nil {
 		return nil
 	}
